@@ -47,6 +47,7 @@ import (
 	nurl "net/url"
 
 	"github.com/markusmobius/go-domdistiller/internal/stringutil"
+	"github.com/markusmobius/go-domdistiller/vtrace"
 	"golang.org/x/net/html"
 )
 
@@ -81,10 +82,16 @@ func NewWebDocumentBuilder(wc stringutil.WordCounter, pageURL *nurl.URL) *WebDoc
 }
 
 func (db *WebDocumentBuilder) SkipNode(e *html.Node) {
+	if vtrace.On {
+		vtrace.Emit("SkipNode", "tag", e.Data)
+	}
 	db.flush = true
 }
 
 func (db *WebDocumentBuilder) StartNode(e *html.Node) {
+	if vtrace.On {
+		vtrace.Emit("StartNode", "tag", e.Data)
+	}
 	action := GetActionForElement(e)
 	db.actionStack = append(db.actionStack, action)
 
@@ -100,6 +107,9 @@ func (db *WebDocumentBuilder) StartNode(e *html.Node) {
 }
 
 func (db *WebDocumentBuilder) EndNode() {
+	if vtrace.On {
+		vtrace.Emit("EndNode")
+	}
 	nActions := len(db.actionStack)
 	if nActions == 0 {
 		return
@@ -124,6 +134,9 @@ func (db *WebDocumentBuilder) EndNode() {
 }
 
 func (db *WebDocumentBuilder) AddTextNode(textNode *html.Node) {
+	if vtrace.On {
+		vtrace.Emit("AddTextNode", "text", textNode.Data)
+	}
 	if db.flush {
 		db.flushBlock(db.groupNumber)
 		db.groupNumber++
@@ -134,6 +147,9 @@ func (db *WebDocumentBuilder) AddTextNode(textNode *html.Node) {
 }
 
 func (db *WebDocumentBuilder) AddLineBreak(br *html.Node) {
+	if vtrace.On {
+		vtrace.Emit("AddLineBreak")
+	}
 	if db.flush {
 		db.flushBlock(db.groupNumber)
 		db.groupNumber++
@@ -144,6 +160,9 @@ func (db *WebDocumentBuilder) AddLineBreak(br *html.Node) {
 }
 
 func (db *WebDocumentBuilder) AddDataTable(table *html.Node) {
+	if vtrace.On {
+		vtrace.Emit("AddDataTable")
+	}
 	db.flushBlock(db.groupNumber)
 	db.document.AddElements(&Table{
 		Element: table,
@@ -152,11 +171,17 @@ func (db *WebDocumentBuilder) AddDataTable(table *html.Node) {
 }
 
 func (db *WebDocumentBuilder) AddTag(tag *Tag) {
+	if vtrace.On {
+		vtrace.Emit("AddTag", "name", tag.Name, "start", tag.Type == TagStart)
+	}
 	db.flushBlock(db.groupNumber)
 	db.document.AddElements(tag)
 }
 
 func (db *WebDocumentBuilder) AddEmbed(embed Element) {
+	if vtrace.On {
+		vtrace.Emit("AddEmbed", "kind", embed.ElementType())
+	}
 	db.flushBlock(db.groupNumber)
 	db.document.AddElements(embed)
 }
@@ -170,6 +195,9 @@ func (db *WebDocumentBuilder) flushBlock(group int) {
 	if text := db.textBuilder.Build(db.nextTextIndex); text != nil {
 		text.GroupNumber = group
 		text.PageURL = db.pageURL
+		if vtrace.On {
+			vtrace.Emit("FlushText", "group", group, "words", text.NumWords, "linked", text.NumLinkedWords, "level", text.TagLevel, "text", text.Text)
+		}
 		db.nextTextIndex++
 		db.addText(*text)
 	}
